@@ -114,6 +114,17 @@ def _islice_counter(e):
     if isinstance(e, ast.Call) and dotted(e.func) in ('islice', 'itertools.islice') and \
             len(e.args) == 2 and isinstance(e.args[1], ast.Name):
         return e.args[1].id
+    z = _zip_counter(e)
+    return z[0] if z else None
+
+
+def _zip_counter(e):
+    """``zip(it, range(c))`` / ``zip(range(c), it)`` -> (c, position of the iterator argument)"""
+    if isinstance(e, ast.Call) and dotted(e.func) == 'zip' and len(e.args) == 2 and not e.keywords:
+        for i, a in enumerate(e.args):
+            if isinstance(a, ast.Call) and dotted(a.func) == 'range' and len(a.args) == 1 and \
+                    isinstance(a.args[0], ast.Name) and isinstance(e.args[1 - i], ast.Name):
+                return a.args[0].id, 1 - i
     return None
 
 
@@ -306,6 +317,14 @@ def r1_r2_wire(ctx, rep, R1='C07.R1', R2='C07.R2'):
                       'the entries added to %s are not bounded by the announced count (%s): every further line on the child\'s stderr (noise written after the report) becomes an entry' % (acc, counter),
                       key='consumer-bound:' + str(acc), func=READER, where=ctx.where(r, lp.ast))
             continue
+        zc = _zip_counter(lp.ast) if cons.form == 'for-islice' else None
+        if zc is not None:
+            rep.check(zc[1] == 1, R2, 'reader loop for %s: zip(range(%s), <lines>) takes exactly the '
+                      'announced number of lines' % (acc, counter),
+                      'zip(<lines>, range(%s)) asks the shared line iterator for one more line before it '
+                      'notices that the count is reached: that line (the first name of the next block) '
+                      'is lost' % counter, key='consumer-zip:' + str(acc), func=READER,
+                      where=ctx.where(r, lp.stmt))
         groups = {'while-next': (nexts, apps, decs), 'for-range-next': (nexts, apps),
                   'for-islice': (apps,)}[cons.form]
         for group in groups:
